@@ -573,8 +573,8 @@ pub fn def() -> CheckDef {
                     Ok(())
                 }),
             },
-            sub("math_functions", 2_000_000, 200_000_000, math_case, |c: &MathCase, l: &mut Local| check_math(c, l)),
-            sub("swap_sequences", 200_000, 20_000_000, sim_case, |c: &SimCase, l: &mut Local| check_sim(c, l)),
+            sub("math_functions", 8_000_000, 400_000_000, math_case, |c: &MathCase, l: &mut Local| check_math(c, l)),
+            sub("swap_sequences", 1_500_000, 50_000_000, sim_case, |c: &SimCase, l: &mut Local| check_sim(c, l)),
         ],
     }
 }
